@@ -14,6 +14,8 @@ pub fn mul<const B: Word>(&self, lhs: &Repr<B>, rhs: &Repr<B>) -> Rounded<FBig<R
         isize::MIN <= lhs.exponent + rhs.exponent <= isize::MAX,
         lhs.exponent + rhs.exponent + ndigits(B as int, lhs.significand.v() * rhs.significand.v()) <= isize::MAX,
         ndigits(B as int, lhs.significand.v() * rhs.significand.v()) <= isize::MAX,
+        // resource limit: exponent overflow is a documented panic (C16), not modelled (digit position of the split in repr_round)
+        pos_room(ndigits(B as int, lhs.significand.v() * rhs.significand.v()) as int),
     ensures
         // C03: ONE correct rounding of the exact product (lhs.sig * rhs.sig) * B^(lhs.exp + rhs.exp)
         round_val(R::md(), B as int, self.precision, lhs.significand.v() * rhs.significand.v(),
